@@ -155,6 +155,9 @@ def run(res, replay=None):
     if not go_ok:
         return
     rng = random.Random(res.seed)
+    # correspondence of the row-level engine model (Model/Engine.v, theorems of Props/C03.v) with the engine
+    import enginecorr
+    enginecorr.run_corr(res, random.Random(res.seed * 7919 + 3), 100 if res.tier == "quick" else 1500, focus="abort")
     hash_probe(res)
     n = 30 if res.tier == "quick" else 300
     for i in range(n):
